@@ -408,6 +408,45 @@ def check_round1(meta, iv):
                         (tag, k, len(body), len(want), short(body[len(want):])))
     return None
 
+def input_class(key, meta, iv):
+    """the class of failing input a finding belongs to (None: no special class).  Known findings are registered under
+    key:class, so that any other failure of the same kind on the same format keeps the plain key and is reported."""
+    fmt, es = meta["fmt"], meta["entries"]
+    w, _, rd = iv
+    part = key.split(":")
+    kind = part[2] if len(part) > 2 else ""
+    padded = meta["bpb"] > 0 and meta["bilb"] != 1          # the last block of the output is filled with zero bytes
+    if kind == "read-error" and padded:
+        if part[1].startswith("filter-") or len(rd[2]) == len(es):
+            return "zero-padded-last-block"
+    if kind == "format-detected" and fmt == "gnutar" and es and max(es[0].get("uid", 0), es[0].get("gid", 0)) >= 1 << 56:
+        return "first-header-id-ge-2^56"
+    if kind == "xattrs":
+        for d, rb in zip(es, rd[2]):
+            want = sorted([list(x) for x in d.get("xattrs") or []])
+            got = sorted(rb[20]) if len(rb) > 20 else []
+            if want != got:
+                return "each-twice" if got == sorted(want + want) else None
+    if kind == "pathname" and fmt == "xar":
+        got = [un1(e[RB["pathname"]]) for e in rd[2]]
+        for d, g in zip(es, got):
+            if d["path"] != g:
+                # a name with bytes outside ASCII, long enough for its base64 form to be broken into lines, comes back cut
+                if any(c >= 0x80 for c in d["path"]) and len(d["path"]) > 57 and g is not None and d["path"].startswith(g):
+                    return "base64-name-over-57-bytes"
+                return None
+    if kind == "body" and fmt == "zip" and "compression=lzma" in meta["opts"]:
+        for d, rb in zip(es, rd[2]):
+            if (d["mode"] & IFMT) == REG and d["size"] == 0 and rb[RB["dstatus"]] != 0:
+                return "lzma-empty-file"
+    return None
+
+def classified(hit, meta, iv):
+    if not hit:
+        return hit
+    c = input_class(hit[0], meta, iv)
+    return (hit[0] + ":" + c, hit[1]) if c else hit
+
 def rb_to_ent(rb, spec):
     """the read-back entry, handed unchanged to the writer again"""
     t = lambda v: tuple(v) if v else None
@@ -548,7 +587,7 @@ def run(rep):
             rep.violation("C02:unparsable-output", "harness output not parsable", dict(case=line[:2000], impl=il[k][:300]), found_input=True)
             continue
         stats["evaluations"] += 1
-        hit = check_round1(meta, iv)
+        hit = classified(check_round1(meta, iv), meta, iv)
         if hit:
             stats["keys"].setdefault(hit[0], hit[1])
             rep.violation(hit[0], hit[1], dict(correspondence="fmt", case=line, fmt=meta["fmt"], opts=meta["opts"], flt=meta["flt"],
@@ -638,7 +677,7 @@ def replay(rep, path):
     il = run_round(rep, exe, [(line, meta)], "fmt-replay")
     if il[0] is not None:
         iv = fparse(il[0])
-        hit = check_round1(meta, iv)
+        hit = classified(check_round1(meta, iv), meta, iv)
         if hit:
             rep.violation(hit[0], hit[1], dict(case=line, impl=il[0][:3000]), found_input=True)
         elif not FORMATS[fmt].get("single"):
